@@ -33,14 +33,23 @@ Print Assumptions c14_lsm_compaction_preserves_lookups.
 (** Generator API (step machine, one state per yield): operations that run
     alone — segments not interleaved with another operation's — return exactly
     the reference map's values.  PARTIAL counterpart of the refuted overlap
-    clause below (scan is not covered by this theorem). *)
+    clause below. *)
 Theorem c14_lsm_alone_partial : forall bl, (forall ks k, In k ks -> bl ks k = true) ->
-  forall c fuel ops st' outs, (nlev c >= 1)%nat -> Forall no_scan ops ->
+  forall c fuel ops st' outs, (nlev c >= 1)%nat ->
   seq_exec fuel c bl (c_init c) ops = Some (st', outs) ->
   forall i k, nth_error ops i = Some (Get k) ->
   nth_error outs i = Some (OGet (spec_of (firstn i ops) k)).
 Proof. exact lsm_alone_partial. Qed.
 Print Assumptions c14_lsm_alone_partial.
+
+Theorem c14_lsm_alone_scan_partial : forall bl, (forall ks k, In k ks -> bl ks k = true) ->
+  forall c fuel ops st' outs, (nlev c >= 1)%nat ->
+  seq_exec fuel c bl (c_init c) ops = Some (st', outs) ->
+  forall i lo hi, nth_error ops i = Some (Scan lo hi) ->
+  exists r, nth_error outs i = Some (OScan r) /\ strictly_increasing (map fst r) /\
+    forall k v, In (k, v) r <-> (lo <= k < hi /\ spec_of (firstn i ops) k = Some v).
+Proof. exact lsm_alone_scan_partial. Qed.
+Print Assumptions c14_lsm_alone_scan_partial.
 
 (** Overlapping operations (generator API as a step machine, any schedule):
     the full overlap clause is REFUTED on the faithful model — known finding
